@@ -96,10 +96,23 @@ func FillMessage(r *RNG, l *ref.Layout, msg reflect.Value, mode Mode) {
 			fv.SetString(randString(r, f.Count, mode == ModeCanon))
 		case f.IsArray:
 			allZero := r.Chance(1, 8)
+			ek := fv.Type().Elem().Kind()
+			signedZeros := !f.IsEnum && (ek == reflect.Float32 || ek == reflect.Float64) && r.Chance(1, 8)
 			for k := 0; k < f.Count; k++ {
-				if allZero {
+				switch {
+				case signedZeros:
+					// a float array holding nothing but zeros, some of them negative: -0.0 is not the all-zero bit pattern
+					bits := uint64(0)
+					if k == f.Count-1 || r.Chance(1, 2) {
+						bits = 1 << 31
+						if ek == reflect.Float64 {
+							bits = 1 << 63
+						}
+					}
+					SetBits(fv.Index(k), bits)
+				case allZero:
 					SetBits(fv.Index(k), 0)
-				} else {
+				default:
 					setElem(r, fv.Index(k), f, mode)
 				}
 			}
